@@ -24,7 +24,7 @@ T = {
  "C06": ("exploration", "guard pages + read-only inputs on production objects, ASan+UBSan, MSan with output definedness assertions, junk differential, valgrind memcheck",
          "3.C06", "The whole public API is driven over exhaustive length windows, alignments 0..7, NULL/0, aliasing, with buffers abutting PROT_NONE pages and poisoned surroundings; any fault, sanitizer report, canary change, input modification or junk-dependent output is a violation.",
          "red-zone tools miss intra-object overflows; lengths >= 2^32 not run"),
- "C07": ("exploration", "memcheck as secret-taint tracker (ctgrind) on -O2/-O3 gcc/clang objects + instruction/address trace equality under lackey",
+ "C07": ("exploration", "memcheck as secret-taint tracker (ctgrind, incl. OS-provided entropy) on -O2/-O3 gcc/clang objects + instruction/address trace equality under lackey between markers",
          "3.C07", "Secrets are marked undefined; any branch/address/syscall depending on them inside a library frame is a report; a leaky positive control must fire on every run. Trace-equivalence groups cross-check on concrete executions.",
          "instruction-latency channels invisible; assembly backends not covered here; valgrind's propagation rules trusted"),
  "C08": ("exploration", "SIV round-trip + tamper batteries with exact verdicts from the SIV model",
@@ -60,7 +60,7 @@ T = {
  "C18": ("fault_enumeration", "libc-boundary fault injection (scripted getrandom/getentropy/syscall/open/read) over all EINTR/EAGAIN prefixes + strace -e inject on the production binary",
          "3.C18", "Every transient prefix up to length 10 x {success, 5 permanent errnos} for each build variant of the entropy source; call counts decide termination; fd census; end-to-end strace injection.",
          "fault alphabet as in the property; EOF on /dev/urandom out of scope"),
- "C19": ("exploration", "TSan differential stress (concurrent == serial) + writable-segment snapshot + heap interposition + history independence",
+ "C19": ("exploration", "TSan differential stress (concurrent == serial) + helgrind on production objects + writable-segment snapshot + heap interposition + history independence",
          "3.C19", "Many threads run the whole API on private objects under ThreadSanitizer with results compared to serial execution; deterministic monitors catch static state and heap use without needing a lucky interleaving.",
          "TSan sees only interleavings that happened; concurrent use of one object is out of scope"),
  "C20": ("exploration", "post-free state read-back over random histories + exact-range clean monitor + dead-buffer wipe-survival probe across compiler/config matrix with weak-wipe positive controls",
